@@ -7,78 +7,97 @@
 package cose
 
 //@ func cose.Encrypt0.Decrypt
+//@   params e0 alg key aad
 //@   props C10(sweep)
 //@   sweep bounds,panic,make,nilmem,div
 
 //@ func cose.Encrypt0.Encrypt
+//@   params e0 alg key payload aad
 //@   props C10(sweep)
 //@   sweep bounds,panic,make,nilmem,div
 
 //@ func cose.Encrypt0.additionalData
+//@   params e0 aad
 //@   props C10(sweep)
 //@   sweep bounds,panic,make,nilmem,div
 
 //@ func cose.Encrypt0Tag.UnmarshalCBOR
+//@   params t data
 //@   props C10(sweep)
 //@   sweep bounds,panic,make,nilmem,div
 
 //@ func cose.Header.UnmarshalCBORStream
+//@   params hdr r o flattened
 //@   props C10(sweep)
 //@   sweep bounds,panic,make,nilmem,div
 
 //@ func cose.IntOrStr.UnmarshalCBOR
+//@   params v b
 //@   props C10(sweep)
 //@   sweep bounds,panic,make,nilmem,div
 
 //@ func cose.Key.KeyOps
+//@   params k
 //@   props C10(sweep)
 //@   sweep bounds,panic,make,nilmem,div
 
 //@ func cose.Key.MarshalCBOR
+//@   params k
 //@   props C10(sweep)
 //@   sweep bounds,panic,make,nilmem,div
 
 //@ func cose.Key.ec2
+//@   params k
 //@   props C10(sweep)
 //@   sweep bounds,panic,make,nilmem,div
 
 //@ func cose.Mac0Tag.UnmarshalCBOR
+//@   params t data
 //@   props C10(sweep)
 //@   sweep bounds,panic,make,nilmem,div
 
 //@ func cose.NewKey
+//@   params k
 //@   props C10(sweep)
 //@   sweep bounds,panic,make,nilmem,div
 
 //@ func cose.Sign1Tag.UnmarshalCBOR
+//@   params t data
 //@   props C10(sweep)
 //@   sweep bounds,panic,make,nilmem,div
 
 //@ func cose.aeadCrypter.Decrypt
+//@   params c rand ciphertext additionalData unprotected
 //@   props C10(sweep)
 //@   sweep bounds,panic,make,nilmem,div
 
 //@ func cose.ccmAEAD.NonceSize
+//@   params c
 //@   props C10(sweep)
 //@   sweep bounds,panic,make,nilmem,div
 
 //@ func cose.ctrCrypter.Decrypt
+//@   params c rand ciphertext additionalData unprotected
 //@   props C10(sweep)
 //@   sweep bounds,panic,make,nilmem,div
 
 //@ func cose.ecSigAlg
+//@   params pub
 //@   props C10(sweep)
 //@   sweep bounds,panic,make,nilmem,div
 
 //@ func cose.newRawHeaderMap
+//@   params unmarshaled
 //@   props C10(sweep)
 //@   sweep bounds,panic,make,nilmem,div
 
 //@ func cose.rsaSigAlg
+//@   params opts
 //@   props C10(sweep)
 //@   sweep bounds,panic,make,nilmem,div
 
 //@ func cose.unpad
+//@   params b blockSize
 //@   props C10(sweep)
 //@   sweep bounds,panic,make,nilmem,div
 
